@@ -815,6 +815,183 @@ example (x : Array ℚ) (idx : Nat) (h : idx < 2 * 2 * 3) :
     ⟨by norm_num, by intro d hd hd2; have : d = 1 := by omega
                      subst this; norm_num⟩ false x idx h
 
+/-- `dft_nd_halfcomplex_inverse` for an axes list written as `B ++ [h]` (`h` the halved axis); see
+there for the meaning. -/
+theorem C18.dft_nd_halfcomplex_inverse_snoc {K : Type} [Field K] [Inhabited K] (σ : K →+* K) (re : K → K)
+    (hre : ∀ z, σ z = z → re z = z) (w : Nat → K) (fftw : Bool)
+    (rshape B : List Nat) (h : Nat) (hnd : (B ++ [h]).Nodup)
+    (hin : ∀ a ∈ B ++ [h], a < rshape.length)
+    (hprim : ∀ a ∈ B ++ [h], IsPrimRoot (w (rshape.getD a 1)) (rshape.getD a 1) ∧
+      ((rshape.getD a 1 : Nat) : K) ≠ 0)
+    (hσ : σ (w (rshape.getD h 1)) = (w (rshape.getD h 1))⁻¹)
+    (x : Array K) (hx : x.size = lprod rshape)
+    (hreal : ∀ i, σ (x.getD i default) = x.getD i default) :
+    (dftForwardNd (fun n => some (w n, (w n)⁻¹)) fftw false true rshape (B ++ [h]) x).bind
+        (fun r => dftInverseNd (fun n => some (w n, (w n)⁻¹)) σ re fftw true true rshape (B ++ [h]) r.2)
+      = some (rshape, x) := by
+  have hhB : h ∉ B := by
+    have := List.nodup_append.mp hnd
+    intro hm; exact this.2.2 h hm h (by simp) rfl
+  have hh : h < rshape.length := hin h (by simp)
+  rw [dftForwardNd_eq, Option.bind_some, dftInverseNd_hc_eq]
+  congr 1
+  have hlast : (B ++ [h]).getLast? = some h := by simp
+  rw [hlast, fshape_eq_set rshape h hh]
+  set n : Nat → Nat := fun a => rshape.getD a 1 with hn
+  set Ff : Nat → (Nat → K) → Nat → K := fun a =>
+    if fftw then dftForwardFftw false (w (n a)) (w (n a))⁻¹ (n a)
+    else dftForwardNp false (w (n a)) (w (n a))⁻¹ (n a) with hFf
+  set Gf : Nat → (Nat → K) → Nat → K := fun a =>
+    if fftw then dftInverseFftw true (w (n a)) (w (n a))⁻¹ (n a)
+    else dftInverseNp true (w (n a)) (w (n a))⁻¹ (n a) with hGf
+  set Gh : (Nat → K) → Nat → K := fun g k => re (npIrfft σ (w (n h))⁻¹ (n h) g k) with hGh
+  -- the step lists
+  have hfwd : ((B ++ [h]).reverse.map fun a =>
+      ((a, (if true && some a == some h then hcLen (rshape.getD a 1) else rshape.getD a 1),
+        if fftw then dftForwardFftw false (w (rshape.getD a 1)) (w (rshape.getD a 1))⁻¹ (rshape.getD a 1)
+        else dftForwardNp false (w (rshape.getD a 1)) (w (rshape.getD a 1))⁻¹ (rshape.getD a 1)) : Step K))
+      = ((h, hcLen (n h), Ff h) : Step K) :: (B.reverse.map fun a => ((a, n a, Ff a) : Step K)) := by
+    rw [List.reverse_append, List.map_append]
+    simp only [List.reverse_cons, List.reverse_nil, List.nil_append, List.map_cons, List.map_nil,
+      List.singleton_append]
+    congr 1
+    · simp [hFf, hn]
+    · apply List.map_congr_left
+      intro a ha
+      have : a ≠ h := fun e => hhB (e ▸ (by simpa using ha))
+      simp [this, hFf, hn]
+  have hinv : ((B ++ [h]).map fun a =>
+      ((a, rshape.getD a 1,
+        if true && some a == some h then
+          fun g k => re (npIrfft σ (w (rshape.getD a 1))⁻¹ (rshape.getD a 1) g k)
+        else if fftw then dftInverseFftw true (w (rshape.getD a 1)) (w (rshape.getD a 1))⁻¹ (rshape.getD a 1)
+        else dftInverseNp true (w (rshape.getD a 1)) (w (rshape.getD a 1))⁻¹ (rshape.getD a 1)) : Step K))
+      = (B.map fun a => ((a, n a, Gf a) : Step K)) ++ [((h, n h, Gh) : Step K)] := by
+    rw [List.map_append]
+    congr 1
+    · apply List.map_congr_left
+      intro a ha
+      have : a ≠ h := fun e => hhB (e ▸ ha)
+      simp [this, hGf, hn]
+    · simp [hGh, hn]
+  rw [hfwd, hinv, applyAxes_eq_foldl, applyAxes_eq_foldl, List.foldl_cons]
+  -- first forward step
+  set S1 := stepFn (rshape, x) ((h, hcLen (n h), Ff h) : Step K) with hS1
+  have hS1sh : S1.1 = rshape.set h (hcLen (n h)) := rfl
+  have hS1sz : S1.2.size = lprod (rshape.set h (hcLen (n h))) := by
+    have := axisSplit_prod (rshape.set h (hcLen (n h))) h (by simpa using hh)
+    rw [axisSplit_set rshape h _ hh] at this
+    rw [← this]; simp only [hS1, stepFn]; rw [alongAxis_size]
+  have hBlt : ∀ a ∈ B, a < (rshape.set h (hcLen (n h))).length := fun a ha => by
+    simpa using hin a (by simp [ha])
+  have hBlen : ∀ a ∈ B, (rshape.set h (hcLen (n h))).getD a 1 = n a := fun a ha => by
+    have : h ≠ a := fun e => hhB (e ▸ ha)
+    simp [hn, List.getD_eq_getElem?_getD, List.getElem?_set, this]
+  have hS1eq : S1 = (rshape.set h (hcLen (n h)), S1.2) := Prod.ext hS1sh rfl
+  -- facts per axis
+  have hax : ∀ a ∈ B ++ [h], 0 < n a ∧ ((n a : Nat) : K) ≠ 0 ∧ IsPrimRoot (w (n a)) (n a) := by
+    intro a ha
+    obtain ⟨p1, p2⟩ := hprim a ha
+    refine ⟨?_, p2, p1⟩
+    rcases Nat.eq_zero_or_pos (n a) with h0 | h0
+    · exfalso; apply p2; simp only [hn] at h0; rw [h0]; simp
+    · exact h0
+  have hFf_eq : ∀ a ∈ B ++ [h], ∀ f, Ff a f = dftForwardNp false (w (n a)) (w (n a))⁻¹ (n a) f := by
+    intro a ha f
+    funext k
+    simp only [hFf]
+    cases fftw
+    · rfl
+    · exact (C18.dft_backends_agree (w (n a)) (w (n a))⁻¹ (n a) (hax a ha).2.1 false f k).1
+  have hGf_eq : ∀ a ∈ B ++ [h], ∀ f k, Gf a f k = dftInverseNp true (w (n a)) (w (n a))⁻¹ (n a) f k := by
+    intro a ha f k
+    simp only [hGf]
+    cases fftw
+    · rfl
+    · exact (C18.dft_backends_agree (w (n a)) (w (n a))⁻¹ (n a) (hax a ha).2.1 true f k).2
+  -- the forward steps over B keep the shape
+  obtain ⟨hs1, hs2⟩ := fold_shape B.reverse (rshape.set h (hcLen (n h))) n Ff
+    (fun b hb => hBlt b (by simpa using hb)) (fun b hb => hBlen b (by simpa using hb)) S1.2 hS1sz
+  rw [hS1eq]
+  set Y := (B.reverse.map fun a => ((a, n a, Ff a) : Step K)).foldl stepFn
+    (rshape.set h (hcLen (n h)), S1.2) with hY
+  have hYeq : (rshape.set h (hcLen (n h)), Y.2) = Y := Prod.ext hs1.symm rfl
+  rw [hYeq, List.foldl_append, hY]
+  rw [middle_cancel B (rshape.set h (hcLen (n h))) n Ff Gf hBlt hBlen ?_ ?_ S1.2 hS1sz]
+  · -- the halved axis
+    simp only [List.foldl_cons, List.foldl_nil]
+    rw [← hS1eq, hS1]
+    obtain ⟨hpos, hnK, hw⟩ := hax h (by simp)
+    have := step_pair_cancel rshape x h (hcLen (n h)) (Ff h) Gh
+      (fun f => ∀ j, σ (f j) = f j) hh hx
+      (fun f g hfg k => by simp only [hGh]; rw [irfft_congr σ _ (n h) f g hfg k])
+      (fun f hf k hk => by
+        simp only [hGh]
+        rw [hFf_eq h (by simp)]
+        have hr := C18.halfcomplex_roundtrip σ (w (n h)) (n h) hpos hnK hw hσ f hf
+          (dftForwardNp false (w (n h)) (w (n h))⁻¹ (n h) f)
+          (fun j _ => by simp [dftForwardNp]) k hk
+        rw [hr]; exact hre _ (hf k))
+      (fun g j => hreal (g j))
+    exact this
+  · intro a ha f g hfg k
+    rw [hGf_eq a (by simp [ha]), hGf_eq a (by simp [ha])]
+    exact dftInverseNp_congr true _ _ (n a) f g hfg k
+  · intro a ha f k hk
+    obtain ⟨hpos, hnK, hw⟩ := hax a (by simp [ha])
+    rw [hGf_eq a (by simp [ha]), hFf_eq a (by simp [ha])]
+    exact C18.dft_inverse (w (n a)) (n a) hpos hnK hw false f k hk
+
+/-- **The n-d half-complex DFT round trip, any number of axes** (the default `halfcomplex=True` of
+`DiscreteFourierTransform` on real spaces; the executed `dftForwardNd` / `dftInverseNd` — the
+definitions the `dft` stream compares with the real operators).  For every real-space shape, every
+non-empty duplicate-free in-range axes list (any order; the LAST entry is the halved axis, as in the
+code), both back-ends, over any field with a conjugation `σ` and primitive roots of unity for the
+transformed lengths: for every REAL array of that shape, `rfftn` (model: the 1-d transforms along
+the axes, last axis first, the last one keeping `n/2+1` entries) followed by
+`DiscreteFourierTransformInverse(halfcomplex=True)` (complex inverse along all axes but the last in
+the given order, then `irfft(·, n)` along the last one and the real part) returns `(shape, x)`
+EXACTLY — even and odd lengths, untouched axes anywhere.  No commutation of axes is needed here
+because the code's own orders telescope (forward: last axis first; half-complex inverse: first axis
+first).  `re` is any map fixing the `σ`-fixed elements (the real part). -/
+theorem C18.dft_nd_halfcomplex_inverse {K : Type} [Field K] [Inhabited K] (σ : K →+* K)
+    (re : K → K) (hre : ∀ z, σ z = z → re z = z)
+    (roots : Nat → Option (K × K)) (w : Nat → K) (hroots : ∀ n, roots n = some (w n, (w n)⁻¹))
+    (fftw : Bool) (rshape axes : List Nat) (hne : axes ≠ []) (hnd : axes.Nodup)
+    (hin : ∀ a ∈ axes, a < rshape.length)
+    (hprim : ∀ a ∈ axes, IsPrimRoot (w (rshape.getD a 1)) (rshape.getD a 1) ∧
+      ((rshape.getD a 1 : Nat) : K) ≠ 0)
+    (hσ : ∀ a ∈ axes, σ (w (rshape.getD a 1)) = (w (rshape.getD a 1))⁻¹)
+    (x : Array K) (hx : x.size = OdlModel.Wavelet.prod rshape)
+    (hreal : ∀ i, σ (x.getD i default) = x.getD i default) :
+    (dftForwardNd roots fftw false true rshape axes x).bind
+        (fun r => dftInverseNd roots σ re fftw true true rshape axes r.2)
+      = some (rshape, x) := by
+  have hr : roots = fun n => some (w n, (w n)⁻¹) := funext hroots
+  subst hr
+  obtain ⟨B, h, rfl⟩ : ∃ B h, axes = B ++ [h] :=
+    ⟨axes.dropLast, axes.getLast hne, (List.dropLast_append_getLast hne).symm⟩
+  exact C18.dft_nd_halfcomplex_inverse_snoc σ re hre w fftw rshape B h hnd hin hprim (hσ h (by simp)) x hx hreal
+
+/-- Non-vacuity: shape `(2, 3, 2)`, axes `(2, 0)` (axis 0 halved, axis 1 of odd length untouched), `w = -1`. -/
+example (x : Array ℚ) (hx : x.size = 12) (fftw : Bool) :
+    (dftForwardNd (fun n => some (if n = 2 then (-1 : ℚ) else 1, (if n = 2 then (-1 : ℚ) else 1)⁻¹))
+        fftw false true [2, 3, 2] [2, 0] x).bind
+      (fun r => dftInverseNd (fun n => some (if n = 2 then (-1 : ℚ) else 1, (if n = 2 then (-1 : ℚ) else 1)⁻¹))
+        (RingHom.id ℚ) id fftw true true [2, 3, 2] [2, 0] r.2) = some ([2, 3, 2], x) := by
+  have h2 : IsPrimRoot (-1 : ℚ) 2 := ⟨by norm_num, by
+    intro d hd hd2; have : d = 1 := by omega
+    subst this; norm_num⟩
+  refine C18.dft_nd_halfcomplex_inverse (RingHom.id ℚ) id (fun z _ => rfl) _
+    (fun n => if n = 2 then (-1 : ℚ) else 1) (fun _ => rfl) fftw [2, 3, 2] [2, 0] (by simp) (by decide)
+    (by decide) ?_ ?_ x (by simpa [OdlModel.Wavelet.prod] using hx) (fun _ => rfl)
+  · intro a ha
+    have : a = 2 ∨ a = 0 := by simpa using ha
+    rcases this with rfl | rfl <;> exact ⟨by simpa using h2, by norm_num⟩
+  · intro a ha
+    have : a = 2 ∨ a = 0 := by simpa using ha
+    rcases this with rfl | rfl <;> norm_num
+
 /-- Non-vacuity of `IsPhase`: `q ↦ exp(iπ q)` over `ℂ` is a phase function, and it is not
 trivial (`e 1 = -1`). -/
 example : IsPhase (fun q : Rat => Complex.exp (Real.pi * Complex.I * (q : ℂ))) ∧
